@@ -402,7 +402,7 @@ def shrink_candidates(case):
 def script_strategy():
     sel = st.integers(0, 3)
     op = st.one_of(st.just(["connect"]), st.just(["connect"]), st.just(["disconnect"]), st.just(["disconnect"]), st.just(["connect_nosuccess"]),
-                   st.tuples(st.just("policy"), st.sampled_from(["result", "result", "error", "drop"])).map(list),
+                   st.tuples(st.just("policy"), st.sampled_from(["result", "result", "error", "drop", "stored_unanswered"])).map(list),
                    st.just(["count"]), st.just(["restart"]), st.just(["restart"]),
                    st.tuples(st.just("consume"), sel, st.sampled_from([0, 0, 1, 3, -1, -1])).map(list),
                    st.tuples(st.just("consume"), sel, st.sampled_from([0, 0, 1, 3, -1, -1])).map(list),
@@ -412,7 +412,7 @@ def script_strategy():
                                                           **dict(([("signed_prekey_start", spk)] if spk is not None else []) +
                                                                  ([("prekey_start", pk)] if pk is not None else []))),
                      st.lists(op, min_size=1, max_size=13), st.integers(0, 2 ** 31 - 1),
-                     st.sampled_from(["result", "result", "error", "drop", "drop"]),
+                     st.sampled_from(["result", "result", "error", "drop", "drop", "stored_unanswered"]),
                      st.sampled_from([None, None, None, None, None, 7, top - 1, top]),
                      st.sampled_from([None, None, None, None, None, None, top - 9, top - 4, top - 1]))
 
@@ -431,6 +431,10 @@ def _enum_basic():
     for spk in (top - 1, top):
         yield {"sub": "history", "seed": 9, "signed_prekey_start": spk, "ops": [["connect"], ["count"], ["restart"], ["count"], ["consume", 0]]}
     yield {"sub": "history", "seed": 10, "prekey_start": top - 3, "ops": [["connect"], ["consume", 0], ["count"], ["restart"], ["consume", 1, -1]]}
+    yield {"sub": "history", "seed": 11, "initial_policy": "stored_unanswered",
+           "ops": [["connect"], ["consume", 0], ["consume", 1, -1], ["policy", "result"], ["restart"], ["consume", 2]]}
+    yield {"sub": "history", "seed": 12, "ops": [["connect"], ["policy", "stored_unanswered"], ["count"], ["consume", 0, -1], ["consume", 1, 3],
+                                                 ["policy", "result"], ["disconnect"], ["connect"], ["consume", 2]]}
     yield {"sub": "history", "seed": 4, "ops": [["connect"], ["policy", "drop"], ["count"], ["restart"], ["policy", "result"], ["restart"]]}
 
 
